@@ -44,5 +44,8 @@ func (s *Space) label() string {
 	if s.Regime == histsim.PreCommit {
 		l += fmt.Sprintf("/skew%v", s.Delta)
 	}
+	if s.Interlopers {
+		l += "/interlopers"
+	}
 	return l
 }
